@@ -418,7 +418,7 @@ class C29(Spec):
 
     def gen(self, tier, rng):
         cases = sweep_cases()
-        n = 400 if tier == "quick" else 15000
+        n = 400 if tier == "quick" else 10000
         for _ in range(n):
             cases.append(oracle_case(rng))
         for _ in range(n // 2):
